@@ -178,7 +178,7 @@ static void otimer_cb(void *dummy)
 	maybe_finish();
 }
 
-static void quiescent(void)
+static int quiescent(void)
 {
 	if (R0.reg && R0.posts_started && R0.last_handler_seq < R0.last_post_seq)
 		mc_fail("raw-lost", "owner blocked for good: a post to R0 (%ld posted) was never followed by its handler (ran %ld times)", R0.posts_started, R0.handled);
